@@ -12,6 +12,11 @@ package vault
 // (key lists comma-separated, `-` = empty)
 
 import (
+	"net"
+	"io"
+	"time"
+	"fmt"
+	auditSocket "github.com/openbao/openbao/v2/internal/builtin/audit/socket"
 	"github.com/openbao/openbao/v2/internal/command/server"
 	"os"
 	"path/filepath"
@@ -281,9 +286,68 @@ func c11eDeclaredDown(t *testing.T, out *vh.Out) {
 	}
 }
 
+// c11eSocketStall: the only audit device is a SOCKET device whose collector accepts connections but has stopped reading;
+// a request whose audit entry does not fit into the socket buffer cannot be delivered (write, reconnect, write again: both
+// writes time out). An entry that was not delivered was not accepted: the request is refused and has no effect.
+// Op line: socketstall => small:<class>|big:<refused|ok>|stored:<0|1>
+func c11eSocketStall(t *testing.T, out *vh.Out) {
+	out.Reset()
+	sockPath := filepath.Join(t.TempDir(), "a.sock")
+	ln, err := net.Listen("unix", sockPath)
+	if err != nil {
+		t.Fatal(err)
+	}
+	defer ln.Close() //nolint:errcheck
+	resume := make(chan struct{})
+	go func() {
+		for {
+			conn, err := ln.Accept()
+			if err != nil {
+				return
+			}
+			go func() {
+				defer conn.Close() //nolint:errcheck
+				<-resume
+				_, _ = io.Copy(io.Discard, conn)
+			}()
+		}
+	}()
+	p := vhNewPhys(t)
+	c, _, root := vhNewCore(t, p, nil, func(conf *CoreConfig) {
+		conf.AuditBackends["socket"] = auditSocket.Factory
+	})
+	sme := &routing.MountEntry{Table: auditTableType, Path: "c11sock", Type: "socket", Options: map[string]string{"address": sockPath, "socket_type": "unix", "write_timeout": "300ms"}}
+	if err := c.enableAudit(vhRootCtx(), sme, true); err != nil {
+		t.Fatalf("enable socket audit device: %v", err)
+	}
+	small, _ := vhReq(c, logical.UpdateOperation, "cubbyhole/small", root, map[string]any{"foo": "bar"})
+	items := make([]any, 40000)
+	for i := range items {
+		items[i] = fmt.Sprintf("value-%d", i)
+	}
+	bcl, _ := vhReq(c, logical.UpdateOperation, "cubbyhole/big", root, map[string]any{"items": items})
+	big := "refused"
+	if bcl == "ok" {
+		big = "ok"
+	}
+	close(resume)
+	time.Sleep(100 * time.Millisecond)
+	stored := "0"
+	if rcl, resp := vhReq(c, logical.ReadOperation, "cubbyhole/big", root, nil); rcl == "ok" && resp != nil && resp.Data != nil && resp.Data["items"] != nil {
+		stored = "1"
+	}
+	res := "small:" + small + "|big:" + big + "|stored:" + stored
+	if big == "ok" || stored == "1" {
+		res += "!VIOL:the only audit device (socket, stalled collector) could not deliver the request entry, yet the request was answered successfully / took effect: " + res + "#undelivered-audit-entry-accepted"
+	}
+	out.Op(res, "socketstall")
+	_ = c.Shutdown()
+}
+
 func TestVerifC11E2E(t *testing.T) {
 	out := vh.Open()
 	defer out.Close()
+	c11eSocketStall(t, out)
 	c11eDeclaredDown(t, out)
 	c11eDisableFault(t, out)
 	c11eHeaders(t, out)
